@@ -35,7 +35,19 @@ fn main() {
     for &(n, m, cap, ext) in &[(1usize, 2usize, 2usize, 1usize), (2, 2, 4, 3), (4, 4, 4, 2), (8, 2, 2, 5), (16, 8, 8, 1), (64, 2, 2, 6), (64, 4, 8, 1), (32, 16, 16, 2), (2, 32, 32, 4), (64, 32, 32, 1), (8, 1, 1, 2), (64, 1, 2, 1)] {
         cfgs.push((n, m, cap, ext, false));
     }
+    // degenerate-but-valid data (appended after the original 54 so that those keep their random streams):
+    // special 1 = an identity commitment (value 0, all-zero mask) at position k % m, 2 = seed zero, 3 = seed one,
+    // 5 = the last commitment repeats the first
+    let first_special = cfgs.len();
+    let specials: Vec<(usize, usize, usize, usize, bool, usize)> = vec![
+        (8, 1, 1, 1, true, 1), (64, 4, 4, 1, false, 1), (64, 1, 1, 3, true, 1), (2, 2, 2, 6, false, 1),
+        (32, 1, 1, 2, true, 2), (16, 1, 2, 3, true, 3), (8, 4, 4, 2, false, 5), (64, 2, 4, 1, false, 5),
+    ];
+    for &(n, m, cap, ext, seeded, _) in &specials {
+        cfgs.push((n, m, cap, ext, seeded));
+    }
     for (k, &(n, m, cap, ext, seeded)) in cfgs.iter().enumerate() {
+        let special = if k >= first_special { specials[k - first_special].5 } else { 0 };
         let degree = ExtensionDegree::try_from(ext).unwrap();
         let pc = ristretto::create_pedersen_gens_with_extension_degree(degree);
         let prm = RangeParameters::init(n, cap, pc).unwrap();
@@ -51,17 +63,34 @@ fn main() {
                 2 => rng.next_u64() & maxv,
                 _ => maxv / 2 + 1,
             };
-            let bl: Vec<Scalar> = (0..ext).map(|_| Scalar::random_not_zero(&mut rng)).collect();
-            promises.push(match (j + k) % 3 {
+            let mut bl: Vec<Scalar> = (0..ext).map(|_| Scalar::random_not_zero(&mut rng)).collect();
+            let mut v = v;
+            let mut promise = match (j + k) % 3 {
                 0 => None,
                 1 => Some(v / 3),
                 _ => Some(v),
-            });
+            };
+            if special == 1 && j == k % m {
+                v = 0;
+                bl = vec![Scalar::ZERO; ext];
+                promise = None;
+            }
+            if special == 5 && j == m - 1 {
+                v = values[0];
+                bl = blindings[0].clone();
+                promise = Some(v / 2);
+            }
+            promises.push(promise);
             commitments.push(prm.pc_gens().commit(&Scalar::from(v), &bl).unwrap());
             values.push(v);
             blindings.push(bl);
         }
         let seed = if seeded && m == 1 { Some(Scalar::random_not_zero(&mut rng)) } else { None };
+        let seed = match special {
+            2 => Some(Scalar::ZERO),
+            3 => Some(Scalar::ONE),
+            _ => seed,
+        };
         let st = RangeStatement::init(prm.clone(), commitments.clone(), promises.clone(), seed).unwrap();
         let w = RangeWitness::init((0..m).map(|j| CommitmentOpening::new(values[j], blindings[j].clone())).collect()).unwrap();
         let label = k % LABELS.len();
